@@ -39,6 +39,10 @@ func NewServer(pop3Config config.POP3, store storage.Store) (*Server, error) {
 		}
 		slog.Debug().Msg("TLS config available")
 	} else {
+		if pop3Config.ForceTLS {
+			// Without a certificate every session would dereference a nil TLS config.
+			return nil, fmt.Errorf("failed to configure TLS; ForceTLS requires TLSEnabled")
+		}
 		tlsConfig = nil
 	}
 	return &Server{
